@@ -461,6 +461,40 @@ func (c *c10ctx) ruleR5() {
 					}
 					return true
 				})
+				// R5 (flag): when this implementation releases the resource only under a boolean
+				// field ("if device.adapRunning { StopAdapter }"), that field must be set on every
+				// path from the successful acquisition to a return of the acquiring function
+				for _, flag := range releaseFlags(p, reachAllMethodsOf(p, D, reach), kind) {
+					for f := range reach(impl) {
+						Instrs(f, func(in ssa.Instruction) {
+							k, d := c10ResKind(in)
+							if d != +1 || k != kind {
+								return
+							}
+							if _, isDefer := in.(*ssa.Defer); isDefer {
+								return
+							}
+							failed := errBranchBlocks(in)
+							esc := ReachAvoiding(f, in, func(x ssa.Instruction) bool {
+								if failed[x.Block()] {
+									return true
+								}
+								if st, ok := x.(*ssa.Store); ok {
+									if _, fld, _, isF := FieldOf(st.Addr); isF && fld == flag {
+										if cst, isC := st.Val.(*ssa.Const); isC && cst.Value != nil && cst.Value.String() == "true" {
+											return true
+										}
+									}
+								}
+								kk, dd := c10ResKind(x)
+								return dd == -1 && kk == kind
+							}, isReturn)
+							fkey := fmt.Sprintf("%s: %s acquired in %s is marked in %s before any return", D, kind, FuncName(f), flag)
+							r.Check(len(esc) == 0, "C10.R5", fkey, p.InstrPos(in), "the flag that guards the release is set on every path from the successful acquisition to a return",
+								"a return is reachable after the "+kind+" was acquired without "+flag+" having been set: the release code tests that flag, skips the release, and the device stays taken after a failed start")
+						})
+					}
+				}
 				key := fmt.Sprintf("%s: %s taken in %s is released on every failing exit of %s after it", D, kind, step, FuncName(c.starter))
 				if len(esc) == 0 {
 					r.OK("C10.R5", key, p.InstrPos(inv), "acquired at "+held[kind]+"; every error return after the step passes a call that reaches this implementation's release")
@@ -470,4 +504,47 @@ func (c *c10ctx) ruleR5() {
 			}
 		}
 	}
+}
+
+// reachAllMethodsOf: everything reachable from the methods of implementation D.
+func reachAllMethodsOf(p *Prog, D string, reach func(*ssa.Function) map[*ssa.Function]bool) map[*ssa.Function]bool {
+	out := map[*ssa.Function]bool{}
+	for _, fn := range p.LibFuncs() {
+		if fn.Signature.Recv() != nil && typeName(fn.Signature.Recv().Type()) == D {
+			for f := range reach(fn) {
+				out[f] = true
+			}
+		}
+	}
+	return out
+}
+
+// releaseFlags: boolean fields F such that some release call of the kind, in the given
+// functions, executes only on the true branch of a test of F.
+func releaseFlags(p *Prog, fns map[*ssa.Function]bool, kind string) []string {
+	set := map[string]bool{}
+	for f := range fns {
+		Instrs(f, func(in ssa.Instruction) {
+			k, d := c10ResKind(in)
+			if d != -1 || k != kind {
+				return
+			}
+			for _, ct := range controllingIfs(in.Block()) {
+				if ct.Branch != 0 {
+					continue
+				}
+				if _, fld, _, ok := FieldOf(ct.If.Cond); ok {
+					if b, isB := ct.If.Cond.Type().Underlying().(*types.Basic); isB && b.Kind() == types.Bool {
+						set[fld] = true
+					}
+				}
+			}
+		})
+	}
+	var out []string
+	for k := range set {
+		out = append(out, k)
+	}
+	sort.Strings(out)
+	return out
 }
